@@ -72,6 +72,7 @@ def memOf (bufs : List (List CRat)) : Mem CRat :=
 
 def parseOp : String → Option Op
   | "addE" => some .addE | "subE" => some .subE | "mulE" => some .mulE | "divE" => some .divE
+  | "rsubE" => some .rsubE | "rdivE" => some .rdivE
   | "addS" => some .addS | "subS" => some .subS | "rsubS" => some .rsubS | "mulS" => some .mulS
   | "divS" => some .divS | "rdivS" => some .rdivS
   | "iaddE" => some .iaddE | "isubE" => some .isubE | "imulE" => some .imulE
@@ -97,7 +98,7 @@ def doElemOp (l : Line) : Option String := do
   let divisorZero : Bool :=
     match op with
     | .divE | .idivE => ((List.range n).any fun i => m yi i = 0)
-    | .rdivS => ((List.range n).any fun i => m 0 i = 0)
+    | .rdivS | .rdivE => ((List.range n).any fun i => m 0 i = 0)
     | .divS | .idivS => c = 0
     | _ => false
   if divisorZero then some "err:div0" else
